@@ -122,6 +122,16 @@ CHECKS["C10"] = dict(
     ref="DESIGN.md 4/C10",
     note=NOTE_COMMON + "Outside: faults in stylesheet text, more than one fault per document, symbolic non-ASCII characters reaching str.lower() (paths end as unsupported).")
 
+CHECKS["C02"] = dict(
+    text="Through the real __mul__/__imul__/reify/point code with matrix, coordinates and parameter all symbolic: (X*M).point(t) = M(X.point(t)) for all t and all real "
+         "matrices for Move/Line/Close/Quadratic/Cubic, composition (X*A)*B = X*(A*B), operand purity; paths and subpaths (*, abs, reify, segments(transformed)); "
+         "Rect/SimpleLine/Polyline/Polygon decompositions under general, positive/mixed/negative scale and skew matrices incl. every Rect.reify branch; for arcs and "
+         "circles/ellipses M(A.point_at_t(tau)) = (A*M).point_at_t(sigma tau) for a free angle under each generator of the similarity group (translation, uniform "
+         "scale, rotation by a symbolic angle, reflection; stored points compose exactly for all matrices), and refuted (known finding) for general matrices.",
+    ref="DESIGN.md 4/C02",
+    note=NOTE_COMMON + "Square roots of polynomials that are perfect squares modulo the tokens' identities c^2+s^2=1 are simplified exactly (sympy Groebner reduction; sound). "
+         "Two known findings (arcs / round shapes under non-similarity transforms). Outside: Arc.get_start_t / t_at_point / point_at_angle quadrant logic.")
+
 NOT_APPLICABLE = {
 }
 
